@@ -218,10 +218,26 @@ func tplCorpus() []string {
 	}...)
 }
 
+// every registered function and test called with one, two and three texts of 100 kB made of many short words (or digits,
+// or one long word): what a function does per word, per pair of words or per character shows as time. The texts are
+// built by repeat, so the templates are some 70 characters.
+func bigArgTemplates(r *hx.Rand, names []string) []string {
+	big := []string{"repeat(\"a \", 50000)", "repeat(\"b \", 50000)", "repeat(\"1 \", 50000)", "repeat(\"a\", 100000)", "repeat(\"a b \", 25000)", "repeat(\"é.\", 30000)"}
+	var out []string
+	for _, name := range names {
+		a, b, c := hx.Pick(r, big), hx.Pick(r, big), hx.Pick(r, big)
+		out = append(out, "@("+name+"("+a+"))", "@("+name+"("+a+", "+b+"))", "@("+name+"("+a+", "+b+", "+c+"))")
+	}
+	return out
+}
+
 func templateTasks(r *hx.Rand, total int) []*task {
 	g := &tplGen{r: r, names: allNames()}
 	var tpls []string
 	tpls = append(tpls, tplCorpus()...)
+	n0 := len(tpls)
+	tpls = append(tpls, bigArgTemplates(r, g.names)...)
+	total += len(tpls) - n0
 	seen := map[string]bool{}
 	for len(tpls) < total {
 		if r.Chance(3, 10) {
